@@ -345,11 +345,13 @@ class DfltModel(Comp):
             elif c.startswith("val ") or c.startswith("implicit "):
                 tag = "V" if c[0] == "v" else "I"
                 if rc(r[k]) != 0:
-                    parts.append(tag + "E")
+                    parts.append(tag + "E" + ("" if rc(r[k]) == 7 else str(rc(r[k]))))     # 7 = LY_EVALID
                     break
                 if k + 2 < len(r):
                     parts.append("%s0 %s # %s" % (tag, self.only_m1(r[k + 1]),
                                                   self.flatten_diff(line, r[k + 2]) if len(c.split(" ")) > 4 else "-"))
+                    if tag == "V":
+                        parts.append("Q")
             elif c.startswith("print t0 x "):
                 parts.append("P%s %s" % (c.split(" ")[3], self.printed(payload(r[k])) if rc(r[k]) == 0 else "print-failed"))
             k += 1
@@ -358,7 +360,15 @@ class DfltModel(Comp):
     def norm(self, line, out):
         if " | end:" in out:
             return " | ".join(self.impl_parts(line, out))
-        return out
+        # model: the Q lines (theorem hypotheses / conclusions on this tree) are compared as a whole: all must hold
+        return " | ".join("Q" if self.q_ok(p) else p for p in out.split(" | "))
+
+    @staticmethod
+    def q_ok(part):
+        if not part.startswith("Q "):
+            return False
+        kv = dict(x.split("=", 1) for x in part[2:].split(" "))
+        return kv["N"] == "1" and kv["A"] == "1" and kv["F"] == "1" and kv["C"] == "1"
 
     def witness(self, line, model_out, impl_out):
         """does the PROPERTY fail on the implementation for this case (not only the correspondence)?"""
@@ -376,9 +386,33 @@ class DfltModel(Comp):
             return (None, "crash: " + impl_out)
         a = self.norm(line, model_out).split(" | ")
         b = self.norm(line, impl_out).split(" | ")
-        for x, y in zip(a, b):
+        for i, (x, y) in enumerate(zip(a, b)):
             if x == y:
                 continue
+            if x.startswith("Q ") and y == "Q":
+                # the model agrees with libyang on the tree; a hypothesis / conclusion of the C07 theorems fails on it
+                kv = dict(z.split("=", 1) for z in x[2:].split(" "))
+                if kv["C"] != "1":
+                    return (None, "the tree handed to validation is not in canonical order")
+                if kv["F"] != "1":
+                    return (None, "a non-presence container's default flag disagrees with its children before validation "
+                                  "(lyd_np_cont_dflt_del / _set not applied by an edit)")
+                if kv["N"] != "1":
+                    why = set(kv["N"].split(":", 1)[1].split(","))
+                    t = None
+                    if why == {"llpartial"}:
+                        t = "dflt-leaflist-partial"
+                    elif why <= {"leftover", "llpartial"}:
+                        t = "dflt-nested-case-leftover"
+                    return (t, "the validated tree is not the normal form of its explicit content (%s): %s"
+                            % (",".join(sorted(why)), a[i - 1][:300]))
+                if kv["A"] != "1":
+                    t = "vdiff-np-container" if (kv["AS"] == "1" and "gone" in kv["S"]) else None
+                    return (t, "the change set applied to the tree before validation does not give the tree after (%s)" % kv["S"])
+                return None
+            if x.startswith("V0") and y.startswith("VE3") and i + 1 < len(a) and a[i + 1].startswith("Q ") and "recreate" in a[i + 1]:
+                return ("vdiff-np-recreate", "lyd_validate_all(.., &diff) returns LY_EINVAL on valid data: a default NP container "
+                                             "is auto-deleted and created again by the same validation")
             if x[:2] in ("V0", "I0") and y[:2] == x[:2] and x.split(" # ")[0] == y.split(" # ")[0]:
                 # same tree, another change list
                 dx = set(x.split(" # ")[1].split(";")) ^ set(y.split(" # ")[1].split(";"))
